@@ -56,6 +56,17 @@ S.update({
  "agent5-G-icu": "ICU::Trigger works line by line; the vectored target is taken from the highest bit of ALL raised irqs instead of the highest vectored-enabled one: a software trigger raising a vectored irq together with a higher unrouted irq enters the wrong vector with the wrong context-switch bit",
  "agent5-H-runloop": "idle state kept across Run calls (dropped when pc moves or a request is latched): if the host rewrites the instruction under the parked pc between two Run calls the next Run(n >= 2) fast-forwards instead of executing it",
 })
+
+S.update({
+ "agent6-S-slicing": "idle detection by address (idle_pc) instead of a flag, idle = false dropped at interrupt entry: a handler that returns onto a CONDITIONAL self-branch whose condition it has just falsified (plain reti, flags not restored) is fast-forwarded for the rest of the slice; single steps and a slice boundary right after the reti are exact",
+ "agent6-T-reset-point": "AHBM keeps a derived DMA-to-AHBM routing table rebuilt on claim-register writes; Ahbm::Reset does not clear it: after Reset, a DMA channel claimed before by AHBM channel 1 or 2 is still served by that channel (back at 8-bit units) until some claim register is written",
+ "agent6-I-irq-boundary": "interrupt entry de-duplicated into a helper; idle = false only after an int0-2 entry (the existing flag is never set in the vectored arm): a VECTORED interrupt taken out of an idle self-branch leaves idle set and the handler is fast-forwarded, one instruction per horizon",
+ "agent6-H-interleaving": "ICU request register as std::atomic<u16>; Acknowledge is an atomic load followed by a separate atomic store without the mutex: a host Trigger landing between the two is overwritten and its pending bit disappears unacknowledged (TSan-silent)",
+ "agent6-R-reconfig": "timer start value cached in a 32-bit reload field refreshed by Restart only; GetMaxSkip/Skip use the cache: a start value rewritten without RES is honoured by Tick but not by the fast-forward pair at the next 0 -> reload transition",
+ "agent6-U-uninit": "plain MMIO cells keep their word in an uninitialised member of Cell instead of a zeroed shared_ptr: every storage-only register that the instance has not written yet reads heap garbage, also after Reset",
+ "agent6-G-guest-ub": "ar and arp pseudo-registers share one layout template with the ar field widths: the arp Rn selectors become 3 bits, arprnj can hold 4..7 and GetArpRnUnit indexes r[8..11], m[], br[] out of range; needs a 16-bit write to arpN with bit 12 or 15 set and a later arp-addressed instruction",
+ "agent6-P-coincidence": "idle computed in Run after the interrupt dispatch as pc == fetch_pc: an entry whose vector address equals the address of the instruction just executed (eint at the vector, second request of the same line latched in that very cycle) marks the core idle inside the handler",
+})
 root = os.path.join(os.path.dirname(os.path.abspath(__file__)), "..", "seeded")
 for k, v in S.items():
     p = os.path.join(root, k, "meta.json")
